@@ -38,7 +38,7 @@ var idxSuffixRe = regexp.MustCompile(`\[\d+]$`)
 
 func init() {
 	register(&Prop{ID: "C01", Run: c01Run,
-		Rule: "generic values (string-keyed maps, lists, scalars of Go types int/int64/uint64/float64/string/bool/time.Time, nulls at any position incl. inside lists, empty maps/lists) through FromMap/AsMap; a keys stream draws the member names of each value from 4-6 names of a wide pool of arbitrary strings (vr_util.go: literal names that spell a dotted / slashed / pointer path NEXT TO the nesting they spell — \"a.b\" beside a -> b —, case twins, blanks, the empty name, precomposed vs combining forms, letters and symbols outside the BMP, U+FFFD, brackets that are no index group, YAML / JSON / template syntax, names that read as numbers, booleans or null, 20+ digit strings) with value-range scalars at half of the leaves (both float zeros, 2^31 / 2^53 / 2^63 / 2^64 neighbours, denormals, +-Inf, blank / case / CRLF variants of strings, boolean spellings); every conversion is repeated 24 times (texts: 12 times) because Go's map iteration order differs from call to call and each result must be deeply equal to the value; YAML and JSON texts (renderings of generated values, a feature corpus: timestamps, anchors/aliases, merge keys, !!binary, non-string keys, big ints, .inf, multi-document, empty; and a malformed stream: truncations, byte flips, random bytes) through FromReader vs a control decode; Serialize x20 per document and encoder; failing writer/reader at every byte offset; afterfail: a call that fails part-way (writer failing after n bytes for six n incl. 0, a value the encoder rejects, a reader failing after n bytes, unparsable text) on one document, then ordinary Serialize / FromReader calls on another and on the same document, compared byte for byte with what they produced before the failure; shared: values in which one Go map / slice object occurs at 2-3 positions; big: texts of Size-1 / Size / Size+1 bytes for Size in 512, 4 KiB, 64 KiB, 1 MiB, and with a 2/3/4-byte UTF-8 character starting at offset Size-1, read whole, in chunks of Size / Size-1 / 511 bytes and one byte at a time, reader and writer failing at the threshold; serhist: documents serialised, edited in place (AddValue / Remove / Set / MustSet / Append / Clear ... through nested builders, Lookup, the root's path API) and serialised again, against a freshly built document.; streams: texts holding 2-4 documents (YAML `---` / `...` markers, JSON concatenated values) any of which, the first in particular, may be blank, comment-only, null, a list, a scalar or malformed — the control decode reads the first document; bracket: member names ending in a bracketed group that is NO index group (decimal digits of nine scripts incl. full-width and non-BMP ones, mixed with ASCII digits, superscripts / fractions / Roman / CJK numerals, signs, radix prefixes, blanks, empty and unbalanced brackets) as values and as YAML / JSON texts; huge: four fixed-count texts per run a little over 8 MiB and 64 MiB (YAML and JSON), read whole and in 64 KiB chunks. Non-trivial: the value has at least one composite child or the text decodes to a non-empty map; distinct by case hash.",
+		Rule: "generic values (string-keyed maps, lists, scalars of Go types int/int64/uint64/float64/string/bool/time.Time, nulls at any position incl. inside lists, empty maps/lists) through FromMap/AsMap; a keys stream draws the member names of each value from 4-6 names of a wide pool of arbitrary strings (vr_util.go: literal names that spell a dotted / slashed / pointer path NEXT TO the nesting they spell — \"a.b\" beside a -> b —, case twins, blanks, the empty name, precomposed vs combining forms, letters and symbols outside the BMP, U+FFFD, brackets that are no index group, YAML / JSON / template syntax, names that read as numbers, booleans or null, 20+ digit strings) with value-range scalars at half of the leaves (both float zeros, 2^31 / 2^53 / 2^63 / 2^64 neighbours, denormals, +-Inf, blank / case / CRLF variants of strings, boolean spellings); every conversion is repeated 24 times (texts: 12 times) because Go's map iteration order differs from call to call and each result must be deeply equal to the value; YAML and JSON texts (renderings of generated values, a feature corpus: timestamps, anchors/aliases, merge keys, !!binary, non-string keys, big ints, .inf, multi-document, empty; and a malformed stream: truncations, byte flips, random bytes) through FromReader vs a control decode; Serialize x20 per document and encoder; failing writer/reader at every byte offset; afterfail: a call that fails part-way (writer failing after n bytes for six n incl. 0, a value the encoder rejects, a reader failing after n bytes, unparsable text) on one document, then ordinary Serialize / FromReader calls on another and on the same document, compared byte for byte with what they produced before the failure; shared: values in which one Go map / slice object occurs at 2-3 positions; big: texts of Size-1 / Size / Size+1 bytes for Size in 512, 4 KiB, 64 KiB, 1 MiB, and with a 2/3/4-byte UTF-8 character starting at offset Size-1, read whole, in chunks of Size / Size-1 / 511 bytes and one byte at a time, reader and writer failing at the threshold; serhist: documents serialised, edited in place (AddValue / Remove / Set / MustSet / Append / Clear ... through nested builders, Lookup, the root's path API) and serialised again, against a freshly built document.; streams: texts holding 2-4 documents (YAML `---` / `...` markers, JSON concatenated values) any of which, the first in particular, may be blank, comment-only, null, a list, a scalar or malformed — the control decode reads the first document; bracket: member names ending in a bracketed group that is NO index group (decimal digits of nine scripts incl. full-width and non-BMP ones, mixed with ASCII digits, superscripts / fractions / Roman / CJK numerals, signs, radix prefixes, blanks, empty and unbalanced brackets) as values and as YAML / JSON texts; huge: four fixed-count texts per run a little over 8 MiB and 64 MiB (YAML and JSON), read whole and in 64 KiB chunks.; odd-entry: 300 rendered YAML mappings with 1-2 entries put into the root (half of the time) or a nested mapping, next to its ordinary entries, that a string-keyed map cannot hold or holds only after conversion - a sequence or mapping as the member name (`? [x, y]`, `? {k: v}`, block spelling, `[x, y]: v`), an alias to an anchored sequence / mapping as the name, a name spelled twice, null / bool / number / timestamp names, `<<:` with something not mergeable - texts the decoder reads to the end and answers with data AND an error. Non-trivial: the value has at least one composite child or the text decodes to a non-empty map; distinct by case hash.",
 		Assumptions: []string{
 			"yaml.v3 / encoding/json are external: byte determinism of Serialize rests on the encoder being a function of the value (sorted keys); fault propagation on the codec returning stream errors — validated here by repeated calls and by fault enumeration, not proved",
 			"known finding D26: map keys ending in an index group are interpreted as list indices by FromMap (classified by a decidable predicate on the input's keys)",
@@ -243,6 +243,7 @@ func c01Run(c *Ctx) {
 	}
 	c01RunMore(c) // c01_more.go: calls after a failed call, shared Go objects, size thresholds, documents with a history
 	c01RunWide(c) // c01_wide.go: multi-document streams, names ending in a bracket group that is no index, huge texts
+	c01RunTyErr(c) // c01_tyerr.go: well-formed YAML mappings with entries a string-keyed map cannot hold (decoder yields data AND an error)
 }
 
 // c01KeyPool: the names one value of the keys stream draws from — a group of names one of which spells a path
